@@ -111,7 +111,15 @@ Definition incoming (self : N) (hs : option N) (c : card) : option N :=
   | _, _ => None
   end.
 
+(* ---- contact_request_manager.go SendContactRequest: the requester role towards the key the user
+   asked for; only when it succeeded is the own contact card written to the stream and the request
+   marked as sent in the account group: (card written, marked sent) ---- *)
+Definition outgoing (hs_ok : bool) : bool * bool := (hs_ok, hs_ok).
+Definition outgoing_run (chk : bool) (A a B : N) (Y : point) (G : cframe) : bool * bool :=
+  outgoing (fst (requester chk A a B Y G)).
+
 Inductive case :=
+| COutgoing (hs_ok card_written marked_sent : bool)
 | CIncoming (self : N) (hs : option N) (c : card) (obs : option N)
 | CHonest (chk : bool) (A a Btarget B' b : N) (obs_req : bool) (obs_resp : option N)
 | CResp (chk : bool) (B b : N) (X : point) (F : aframe) (ack : option bool) (obs : option N)
@@ -122,6 +130,7 @@ Definition optN_eqb (a b : option N) : bool :=
 
 Definition check_case (c : case) : bool :=
   match c with
+  | COutgoing hs w m => let '(w', m') := outgoing hs in Bool.eqb w w' && Bool.eqb m m'
   | CIncoming self hs c obs => optN_eqb (incoming self hs c) obs
   | CHonest chk A a Bt B' b o1 o2 =>
     let '(r1, r2) := honest_run chk A a Bt B' b in Bool.eqb r1 o1 && optN_eqb r2 o2
